@@ -812,6 +812,15 @@ func ruleNilReceivers(c *Ctx, rule string, fns []*ssa.Function) {
 							guarded = true
 						}
 					}
+					// (value, ok) accessors: on the outcome known here the accessor returned a
+					// value that is never nil (a fresh object, a constructor's result)
+					if !guarded && ov != nil && ov != res && !isNilConst(stripIface(ov)) {
+						if w.absint().definitelyNonNil(ov) || w.nonNilValue(ov, 2) {
+							guarded = true
+						} else if bc, _ := callOf(stripIface(w.resolveLoad(ov))); bc != nil && stdCallee(&bc.Call) == "math/big.NewInt" {
+							guarded = true
+						}
+					}
 					if guarded {
 						c.OK(rule, fname(fn), "use of "+g.Name()+"()", w.instrPos(u), what+" under result != nil")
 					} else {
